@@ -31,7 +31,7 @@ TECHNIQUE = "generated plans on a deterministic asyncio simulator + enumeration 
 RULE = ("plans decoded from a generated 320-byte decision tape: <=10 layer reactions (open up to 9 connections to 2 "
         "addresses incl. bursts >5 to one address, send, close, half-close, hooks, wakeups), per connect attempt "
         "delay+outcome (ok/OSError/never), read/drain/write_eof/close scripts, hook durations and kills, timeout 1-3 s, "
-        "timer overshoots; for every plan ALL faults {err,hang,ceof,ceof_after} x await points reached (first 48) are "
+        "timer overshoots, eager (Master.run) or lazy task start; for every plan ALL faults {err,hang,ceof,ceof_after} x await points reached (first 48) are "
         "enumerated.  non-trivial = >=1 server connection and (a fault injected, or the client went away / was "
         "cancelled while a connect attempt or hook was in flight); distinct by (hook-trace shape, fault kind, label)")
 ASSUMPTIONS = ["asyncio Task/Lock/Semaphore/Event semantics are the real ones; only time and I/O are simulated",
@@ -63,7 +63,10 @@ def judge(w, out, ctx, case, tag):
     if out.error is not None:
         ctx.crash(out.error, prefix="handle_client-raised", case=case)
     if out.ended != "ok":
-        fail("no-termination:" + out.ended, "handle_client did not return; trace tail %r" % (w.trace[-5:],))
+        # the idle timeout that fires while a hook is pending (C10's finding) hits `assert handler` in on_timeout when
+        # the client handler does not exist yet; the watchdog task dies and nothing ends an idle connection any more
+        why = "watchdog-fired-during-hook" if _timeout_during_hook(w) else "other"
+        fail("no-termination:%s:%s" % (out.ended, why), "handle_client did not return; trace tail %r" % (w.trace[-5:],))
     hooks = [r for r in w.trace if r[1] == "hook"]
     names = [r[2] for r in hooks]
     # -- client pairing
@@ -130,7 +133,13 @@ def judge(w, out, ctx, case, tag):
             live_task = io.handler is not None and not io.handler.done()
             live_writer = io.writer is not None and not io.writer.closed
             if live_task or live_writer:
-                fail("transports-live-entry:%s" % ("client" if conn is w.handler.client else "server"),
+                if conn is w.handler.client:
+                    # lazy: the handler task can be cancelled before its first step; eager: it cannot
+                    who = "client:eager-task-start" if w.plan.get("eager") else "client:lazy-task-start"
+                else:
+                    seq = per.get(w.conn_index(conn), [])
+                    who = "server:" + ("handle_connection-skipped" if "server_disconnected" not in seq else "after-server_disconnected")
+                fail("transports-live-entry:%s" % who,
                      "entry for %r still live (task pending=%s, writer open=%s)" % (w.conn_index(conn), live_task, live_writer))
             else:
                 stale += 1
@@ -164,6 +173,18 @@ def judge(w, out, ctx, case, tag):
     for t in out.loop.tasks:
         if t.done() and not t.cancelled() and t.exception() is not None and not t.get_name().startswith("Task-"):
             ctx.cls("task-exception:%s:%s" % (t.get_name().split(" ")[0], type(t.exception()).__name__))
+
+
+def _timeout_during_hook(w):
+    open_ = 0
+    for r in w.trace:
+        if r[1] == "hook":
+            open_ += 1
+        elif r[1] == "hook_end":
+            open_ -= 1
+        elif r[1] == "timeout" and open_ > 0:
+            return True
+    return False
 
 
 def _hook_interrupted(w, name, idx):
@@ -250,6 +271,8 @@ def check_case(case, ctx):
         run_one(plan, fault, ctx, "replay")
         return
     w0 = run_one(plan, None, ctx)
+    if case.get("base_only"):  # hand-written witnesses: the fault-free run only
+        return
     points = list(w0.net.points[:MAX_POINTS])
     if not w0.servers:  # no upstream connection at all: only the client pairing is at stake; sample the faults sparsely
         points = points[:6]
